@@ -471,6 +471,11 @@ fn e_sudo(deps: DepsMut, env: Env, cmd: Cmd) -> Result<Response, StdError> {
 fn typed_contract() -> Box<dyn Contract<MyMsg, MyQuery>> {
     Box::new(ContractWrapper::new(t_execute, t_instantiate, t_query).with_reply(t_reply).with_migrate(t_migrate).with_sudo(t_sudo))
 }
+/// the typed contract without reply entry point: a reply that is due cannot be delivered, which is
+/// an error like any other (nothing is "handled")
+fn typed_noreply_contract() -> Box<dyn Contract<MyMsg, MyQuery>> {
+    Box::new(ContractWrapper::new(t_execute, t_instantiate, t_query))
+}
 fn lifted_contract() -> Box<dyn Contract<MyMsg, MyQuery>> {
     Box::new(ContractWrapper::new_with_empty(e_execute, e_instantiate, e_query).with_reply_empty(e_reply).with_migrate_empty(e_migrate).with_sudo_empty(e_sudo))
 }
@@ -767,6 +772,8 @@ where
     let typed = app.instantiate_contract(ct, ua.clone(), &Empty {}, &[], "typed", None).unwrap().into_string();
     let lifted = app.instantiate_contract(cl, ua.clone(), &Empty {}, &[], "lifted", None).unwrap().into_string();
     let callee = app.instantiate_contract(ct, ua.clone(), &Empty {}, &[], "callee", None).unwrap().into_string();
+    let cn = app.store_code(typed_noreply_contract());
+    let noreply = app.instantiate_contract(cn, ua.clone(), &Empty {}, &[], "noreply", None).unwrap().into_string();
     let genesis = app.storage().clone();
     let accepts_of = |kind: &str| match kind {
         "custom" => accepts[0],
@@ -777,7 +784,7 @@ where
     let combo = json!({"custom": if accepts[0] { "AcceptingModule" } else { "FailingModule" }, "ibc": if accepts[1] { "IbcAcceptingModule" } else { "IbcFailingModule" }, "gov": if accepts[2] { "GovAcceptingModule" } else { "GovFailingModule" }, "stargate": if accepts[3] { "StargateAccepting" } else { "StargateFailing" }});
     let mut n = 0u64;
     for kind in ["custom", "ibc", "gov", "stargate", "any"] {
-        for origin in 0..3u8 {
+        for origin in 0..4u8 {
             // Custom(Empty) from a lifted contract: the recorded known finding of the main stage
             if kind == "custom" && origin == 2 {
                 continue;
@@ -790,9 +797,10 @@ where
                 let emitter = match origin {
                     0 => user.clone(),
                     1 => typed.clone(),
-                    _ => lifted.clone(),
+                    2 => lifted.clone(),
+                    _ => noreply.clone(),
                 };
-                let case = || json!({"engine": "route-stock-modules", "modules": combo, "message_kind": kind, "origin": (["top-level", "typed contract", "lifted contract"][origin as usize]), "reply_on": (["never", "success", "error", "always"][mode as usize])});
+                let case = || json!({"engine": "route-stock-modules", "modules": combo, "message_kind": kind, "origin": (["top-level", "typed contract", "lifted contract", "typed contract without reply entry point"][origin as usize]), "reply_on": (["never", "success", "error", "always"][mode as usize])});
                 let before = app.storage().data.clone();
                 let res = catch(|| match origin {
                     0 => app.execute(ua.clone(), msg_of::<MyMsg>(kind, Some(MyMsg::Ping { n: 7 }), &callee, &recipient)),
@@ -808,8 +816,9 @@ where
                     }
                 };
                 let accepting = accepts_of(kind);
-                let caught = origin != 0 && (mode == 2 || mode == 3);
-                let want_ok = accepting || caught;
+                let caught = (origin == 1 || origin == 2) && (mode == 2 || mode == 3);
+                // without reply entry point every reply that is due fails the transaction
+                let want_ok = if origin == 3 { accepting && (mode == 0 || mode == 2) } else { accepting || caught };
                 if res.is_ok() != want_ok {
                     ctx.violation(
                         &format!("c17:stock-modules:{}", if want_ok { "accepting-module-not-seen" } else { "failing-module-not-seen" }),
@@ -823,7 +832,7 @@ where
                     }
                 } else if origin != 0 {
                     let replies = logv.iter().filter(|r| r.module == "contract" && r.op == "reply").count();
-                    let want_reply = (!accepting && (mode == 2 || mode == 3)) || (accepting && (mode == 1 || mode == 3));
+                    let want_reply = origin != 3 && ((!accepting && (mode == 2 || mode == 3)) || (accepting && (mode == 1 || mode == 3)));
                     if replies != want_reply as usize {
                         ctx.violation("c17:reply-per-reply_on", json!({"case": case(), "replies": replies, "expected": want_reply}));
                     }
